@@ -63,7 +63,7 @@ CHECKS["C13"] = {
         R("./env", {"fn": r"^ZZ_C13_D1_"}, race=True),
         R("./env", {"fn": r"^ZZ_C13_D2_(two_goroutines|sequence)_quick$"}, {"fn": r"^ZZ_C13_D2_(two_goroutines|sequence)$", "wall_timeout": 7200}),
     ],
-    "expect_asserts": [r"C13\.D1\.lock-discipline/.*", r"C13\.D2\.linearizable/.*"],
+    "expect_asserts": [r"C13\.D1\.external-lookup-called-with-no-lock-held/Addr", r"C13\.D1\.lock-discipline/.*", r"C13\.D2\.linearizable/.*"],
     "bounds": {"quick": {"D1": "every exported Env method (SetExternalLookup included; guarded fields: values, types, externalLookup), one call from arbitrary state of <=2 scopes; GetEnvFromPath with 1-3 path elements through modules m, m.m2 including every failing path",
                          "D2": "2 goroutines x 1 operation, <= 3 context switches at lock operations; 2 operations (Define/Delete/DefineType) against 1 observer (Copy/DeepCopy/Get/Symbols), <= 2 switches"},
                "thorough": {"D1": "same", "D2": "2 goroutines x 1 operation, <= 8 context switches (all interleavings at lock granularity); 2 operations (Define/Delete/DefineType/Set) against 1 of 8 operations, <= 4 switches"}},
